@@ -138,6 +138,39 @@ def run(v, tier, rng):
             v.violation("output of A;B differs from output(A) ++ output(B) [statements sharing an EQU name, BITS %d]" % mode,
                         {"source": A.p_program(head(mode) + hdr + sts), "out_whole": cs[0]["out"], "out_parts": [c["out"] for c in cs[1:]],
                          "parts": [A.p_program(head(mode) + hdr + [st]) for st in sts]})
+    # self-contained groups: each sets its own mode and ends with a branch back to its own label (relative, hence position
+    # independent): a group must assemble to the same bytes whatever groups stand before and after it
+    sc_groups = []
+    for g in range(20 if tier == "quick" else 300):
+        segs = []
+        for si in range(rng.randrange(2, 4)):
+            m = rng.choice([16, 32])
+            lab = "sc%d_%d" % (g, si)
+            body = [("config", "BITS", ("num", m))]
+            pre = [GP.safe_instr(rng, m, []) for _ in range(rng.randrange(0, 2))]
+            mid = [GP.safe_instr(rng, m, []) for _ in range(rng.randrange(0, 3))]
+            body += pre + [("label", lab)] + mid + [("mn", rng.choice(["JMP", "JE", "JNZ", "CALL"]), [A.ident(lab)])]
+            segs.append(body)
+        sc_groups.append(segs)
+    sccases = []
+    for gi, segs in enumerate(sc_groups):
+        sccases.append({"id": "sw%d" % gi, "srcs": [A.p_program([st for sg in segs for st in sg])]})
+        for qi, sg in enumerate(segs):
+            sccases.append({"id": "sp%d_%d" % (gi, qi), "srcs": [A.p_program(sg)]})
+    scres = lib.run_cases(sccases, "c14s")
+    scnontriv = 0
+    for gi, segs in enumerate(sc_groups):
+        rs = [scres["sw%d" % gi]] + [scres["sp%d_%d" % (gi, qi)] for qi in range(len(segs))]
+        if any(not r.get("calls") or r["calls"][0].get("panic") for r in rs):
+            continue
+        cs = [r["calls"][0] for r in rs]
+        if any(c["diag"] for c in cs):
+            continue
+        scnontriv += 1
+        if cs[0]["out"] != "".join(c["out"] for c in cs[1:]):
+            v.violation("output of A;B differs from output(A) ++ output(B) [self-contained groups with their own BITS and label]",
+                        {"source": sccases[[c["id"] for c in sccases].index("sw%d" % gi)]["srcs"][0], "out_whole": cs[0]["out"], "out_parts": [c["out"] for c in cs[1:]],
+                         "parts": [A.p_program(sg) for sg in segs]})
     cases = []
     for gi, (mode, seqs, kind) in enumerate(groups):
         whole = [s for q in seqs for s in q]
@@ -175,4 +208,4 @@ def run(v, tier, rng):
             v.tie_broken("correspondence model vs gosk (label-free sequences)", {"source": cases[0]["srcs"][0], "index": k})
     v.cov.update({"evaluations": len(cases) + len(fcases), "distinct_nontrivial": nontriv,
                   "rule": "label-free position-independent sequences (safe instruction forms, DB/DW/DD, RESB; no $, ALIGNB, jumps) in both modes: random pairs/triples, every statement of longer programs alone vs in context, pairs of skeleton forms; non-trivial = groups whose concatenated output is non-empty and undiagnosed",
-                  "samples": [cases[0]["srcs"][0], cases[1]["srcs"][0]], "groups": len(groups), "fresh_process_groups": len(fresh_groups), "equ_sharing_groups": enontriv, "fresh_nontrivial": fnontriv, "correspondence_mismatches": len(bad)})
+                  "samples": [cases[0]["srcs"][0], cases[1]["srcs"][0]], "groups": len(groups), "fresh_process_groups": len(fresh_groups), "equ_sharing_groups": enontriv, "self_contained_groups": scnontriv, "fresh_nontrivial": fnontriv, "correspondence_mismatches": len(bad)})
